@@ -63,6 +63,10 @@ type EntryResult struct {
 	WallS       float64               `json:"wall_s"`
 	SolverErrors []string             `json:"solver_errors,omitempty"`
 	MaxDepth    int                   `json:"max_fork_depth"`
+	// thorough tier: unsat verdicts re-derived by a second solver pipeline / second solver undecided / DISAGREEMENTS
+	CrossChecked  int `json:"cross_checked,omitempty"`
+	CrossUnknown  int `json:"cross_unknown,omitempty"`
+	CrossDisagree int `json:"cross_disagree,omitempty"`
 	// path prefixes handed to the other shards of a sharded instance
 	OtherShards int `json:"other_shards,omitempty"`
 	// states left unexplored because the entry already had >= 8 counterexamples stored (entry is red)
@@ -130,6 +134,19 @@ func (ex *Exec) assert(st *State, cond *Term, label string, detail string) {
 	}
 	// sliced check first
 	r := st.feasibleFinal(neg)
+	if r == Unsat && ex.crossBudget() {
+		// thorough tier: the verdict is re-derived by a different solver pipeline (diff of back ends)
+		switch st.ex.crossCheck(append(st.slicePC(neg), neg)) {
+		case Unsat:
+			res.CrossChecked++
+		case Unknown:
+			res.CrossUnknown++
+		case Sat:
+			res.CrossDisagree++
+			res.SolverErrors = append(res.SolverErrors, "solver disagreement (primary unsat, second solver sat) at "+label)
+			r = Unknown
+		}
+	}
 	if r == Unsat {
 		ls.Discharged++
 		res.Discharged++
